@@ -13,11 +13,11 @@ Op(r) == IF r.op = "put" THEN [op |-> "put", mode |-> r.mode, root |-> r.root, c
 
 GInit == Init /\ hist = <<>>
 GNext == /\ Len(hist) < Depth
-         /\ IF Mode = "c14" THEN NextC14 ELSE NextC11
+         /\ IF Mode = "c14" THEN NextC14 ELSE IF Mode = "c14f" THEN NextC14F ELSE NextC11
          /\ hist' = Append(hist, Op(res'))
 GSpec == GInit /\ [][GNext]_<<vars, hist>>
 EdgeView == <<m, pin, cached, res>>
-Scn == [par |-> [mode |-> Mode], ops |-> hist]
+Scn == [par |-> [mode |-> IF Mode = "c11" THEN "c11" ELSE "c14"], ops |-> hist]
 EmitAll  == hist # <<>> => PrintT(<<"SCN", ToJson(Scn)>>)
 EmitFull == Len(hist) = Depth => PrintT(<<"SCN", ToJson(Scn)>>)
 ==============================================================================
